@@ -120,6 +120,7 @@ Section ExprInd.
   Hypothesis Hlcall : forall f l, Q l -> P (ELCall f l).
   Hypothesis Hlist : forall l, Q l -> P (EList l).
   Hypothesis Hplist : forall l, Q l -> P (EPList l).
+  Hypothesis Hobj : forall f pid x, P x -> P (EObj f pid x).
   Hypothesis Hnil : Q [].
   Hypothesis Hcons : forall x l, P x -> Q l -> Q (x :: l).
   Fixpoint expr_ind2 (e : expr) : P e :=
@@ -131,6 +132,7 @@ Section ExprInd.
     | ENeg x => Hneg x (expr_ind2 x) | ENot x => Hnot x (expr_ind2 x)
     | ECall f l => Hcall f l (go l) | ELCall f l => Hlcall f l (go l)
     | EList l => Hlist l (go l) | EPList l => Hplist l (go l)
+    | EObj f pid x => Hobj f pid x (expr_ind2 x)
     end.
 End ExprInd.
 
@@ -548,6 +550,60 @@ Proof.
   destruct Hs as [r3 Hs]. exists r3. erewrite run_ops_step; [| subst pt pa; lia | exact Hs]. f_equal. subst pt pa. lia.
 Qed.
 
+(* ---- the <property> of <sound / sprite / cast> <id> ---- *)
+Lemma step_bi d a r m x y proc0 attr0 proc attr oc m' :
+  code_at d a [x; y] -> assocZ (u8 x) OPCODES = Some (2, "BiOpcode", proc0, attr0) ->
+  assocZ (u8 x * 256 + u8 y) BI_OPCODES = Some (2, "BiOpcode", proc, attr) -> opclass_of proc attr = Some oc ->
+  process oc 0 0 a m = Ok m' -> step d a r m = Ok (a + 2, r, m').
+Proof.
+  intros Hc Ha Hb Ho Hp. unfold step.
+  destruct (code_at_cons _ _ _ _ Hc) as [Hx Hy].
+  rewrite (byte_at_code _ _ _ _ Hx). cbn [bind]. rewrite Ha. cbn [Z.eqb Pos.eqb].
+  rewrite (byte_at_code _ _ _ _ Hy). cbn [bind]. change (String.eqb "BiOpcode" "BiOpcode") with true. cbn iota.
+  rewrite Hb, Ho. cbn [of_option bind]. rewrite Hp. reflexivity.
+Qed.
+
+Lemma int_of_str_small_table : forallb (fun n => match int_of_str (str_of_int (Z.of_nat n)) with Some z => z =? Z.of_nat n | None => false end) (seq 0 512) = true.
+Proof. vm_compute. reflexivity. Qed.
+Lemma int_of_str_small n : (n < 512)%nat -> int_of_str (str_of_int (Z.of_nat n)) = Some (Z.of_nat n).
+Proof.
+  intros H. pose proof int_of_str_small_table as T. rewrite forallb_forall in T. specialize (T n ltac:(apply in_seq; lia)).
+  destruct (int_of_str (str_of_int (Z.of_nat n))) as [z|]; [|discriminate]. apply Z.eqb_eq in T. subst z. reflexivity.
+Qed.
+Lemma ftable_small f : (length (ftable f) < 512)%nat.
+Proof. destruct f; vm_compute; lia. Qed.
+Lemma tbl_obj f : assocZ (u8 (b 92) * 256 + u8 (b (fcode f))) BI_OPCODES
+  = Some (2, "BiOpcode", match f with FSound => "SoundPropertiesOpcode" | FSprite => "SpritePropertiesOpcode" | FCast => "CastPropertiesOpcode" | FVideo => "VideoPropertiesOpcode" end, "").
+Proof. destruct f; vm_compute; reflexivity. Qed.
+
+Lemma exec_obj en f pid x : exec_spec en x -> wf_e en (EObj f pid x) -> exec_spec en (EObj f pid x).
+Proof.
+  intros IHx [Hpid Hx] d off len a fuel r m Hag Hc Hoff Hlen.
+  pose proof (ftable_small f) as Hsm.
+  cbn [compile_e ninstr] in *. rewrite !zlen_app in *. change (zlen [b 92; b (fcode f)]) with 2 in *.
+  apply code_at_app in Hc. destruct Hc as [Hcx Hc]. apply code_at_app in Hc. destruct Hc as [Hci Hco].
+  pose proof (zlen_nonneg (compile_e x)). pose proof (zlen_nonneg (compile_int (Z.of_nat pid))).
+  replace (ninstr x + 2 + fuel)%nat with (ninstr x + (1 + (1 + fuel)))%nat by lia.
+  destruct (IHx d off len a (1 + (1 + fuel))%nat r m Hag Hcx ltac:(lia) ltac:(lia)) as [r1 E1]. rewrite E1.
+  set (m1 := after_e en a x m). set (a1 := a + zlen (compile_e x)) in *.
+  assert (Hwi : wf_e en (EInt (Z.of_nat pid))) by (cbn [wf_e]; lia).
+  destruct (exec_int en (Z.of_nat pid) Hwi d off len a1 (1 + fuel)%nat r1 m1 (agrees_after_e _ _ _ _ Hag) Hci ltac:(subst a1; lia) ltac:(subst a1; cbn [compile_e]; lia)) as [r2 E2].
+  cbn [ninstr compile_e] in E2. rewrite E2.
+  set (m2 := after_e en a1 (EInt (Z.of_nat pid)) m1). set (a2 := a1 + zlen (compile_int (Z.of_nat pid))) in *.
+  assert (Hs : step d a2 r2 m2 = Ok (a2 + 2, r2, after_e en a (EObj f pid x) m)).
+  { eapply step_bi with (proc0 := "SoundPropertiesOpcode") (attr0 := "")
+                        (oc := match f with FSound => OSoundProps | FSprite => OSpriteProps | FCast => OCastProps | FVideo => OVideoProps end);
+      [exact Hco | reflexivity | apply tbl_obj | destruct f; reflexivity |].
+    assert (E : obj_prop m2 a2 (fclass f) (ftable f) = Ok (after_e en a (EObj f pid x) m)).
+    { unfold obj_prop, pop. subst m2. rewrite after_e_stack. cbn [bind reify_e]. unfold int_name. cbn [name_of].
+      rewrite int_of_str_small by lia. cbn [of_option bind]. unfold with_stack at 1. cbn [m_stack].
+      subst m1. rewrite after_e_stack. cbn [bind]. rewrite nth_name_ok by exact Hpid. cbn [bind]. f_equal;
+        try (apply mstate_eq; [ | | unfold push, with_stack; cbn [m_fn]; rewrite !after_e_globals; cbn [globals_e add_globals fold_left]; reflexivity | .. ];
+             destruct m as [st [? ? ? ? ? ? ?] cx]; reflexivity). }
+    destruct f; cbn [process fclass ftable] in *; exact E. }
+  exists r2. cbn [Nat.add]. erewrite run_ops_step; [| subst a2 a1; lia | exact Hs]. f_equal. subst a2 a1. lia.
+Qed.
+
 Lemma wf_lexpr_args en k l : wf_e en (lexpr k l) -> wf_args en l.
 Proof. destruct k; cbn [lexpr wf_e]; rewrite wf_args_eq; tauto. Qed.
 
@@ -563,6 +619,7 @@ Proof.
   - intros f l IHl Hwf. apply (exec_lexpr en (KCallLoc f) l); [apply IHl; apply (wf_lexpr_args en (KCallLoc f)); exact Hwf | exact Hwf].
   - intros l IHl Hwf. apply (exec_lexpr en KListLit l); [apply IHl; apply (wf_lexpr_args en KListLit); exact Hwf | exact Hwf].
   - intros l IHl Hwf. apply (exec_lexpr en KPListLit l); [apply IHl; apply (wf_lexpr_args en KPListLit); exact Hwf | exact Hwf].
+  - intros f pid x IHx Hwf. apply exec_obj; [apply IHx; apply Hwf | exact Hwf].
   - intros _. apply exec_args_nil.
   - intros x l IHx IHl [Hx Hl]. apply exec_args_cons; auto.
 Qed.
